@@ -230,6 +230,22 @@ impl Check for C11 {
                 inputs.push(format!("{}1{}1", l, u));
                 inputs.push(format!("{}{}11", l, l));
                 inputs.push(format!("11{}{}", u, u));
+                // multi-line line starts under i: the scan for the next line start stays case-blind
+                for (pat, inp) in [(l, u), (u, l)] {
+                    for (flags, want) in [("mi", true), ("m", false)] {
+                        out.inc("states");
+                        out.inc("validated");
+                        let p = format!("^{}", pat);
+                        if let Compiled::Ok(re) = common::compile(&p, flags, false) {
+                            let input = format!("1\n{}", inp);
+                            if let Out::Ok(got) = imp::is_match(&re, &input) {
+                                if got != want {
+                                    out.fail("C11", &Case::new(&scope_name, &p, flags).input(&input).api("is_match"), "LineStartCase", &want.to_string(), &got.to_string(), "a letter at the start of the second line, pattern anchored with ^ under flag m");
+                                }
+                            }
+                        }
+                    }
+                }
                 // literal flag q together with i: the literal is compared case-blind
                 for (pat, inp) in [(l, u), (u, l)] {
                     for (flags, want) in [("qi", true), ("iq", true), ("q", false)] {
@@ -465,6 +481,16 @@ impl C11 {
                             &format!("{:?} on {:?}", sb, sw),
                             "",
                         );
+                    }
+                }
+            }
+            // (2'') the tokenizer sees the same separators whatever their case
+            if case_closed && sw != *inp {
+                if let (Out::Ok(t1), Out::Ok(t2)) = (imp::tokenize(&re_i, inp), imp::tokenize(&re_i, &sw)) {
+                    let l1: Vec<usize> = t1.iter().map(|t| t.chars().count()).collect();
+                    let l2: Vec<usize> = t2.iter().map(|t| t.chars().count()).collect();
+                    if l1 != l2 {
+                        out.fail("C11", &Case::new(scope, text, "i").input(inp).api("tokenize"), "InputCaseSwapChangesTokens", &format!("token lengths {:?}", l1), &format!("{:?} on {:?}", l2, sw), "");
                     }
                 }
             }
